@@ -54,8 +54,14 @@ async fn scenario(a: &ShardArgs, idx: u64) {
     let mut cfg = OutCfg::default();
     cfg.unsolicited = true;
     cfg.confirm_timeout_ms = *r.pick(&[50u64, 100, 1000]);
-    cfg.unsol_retry_delay_ms = *r.pick(&[0u64, 30, 500, 5000]);
+    // (the library's validated time-outs stop at one hour; this delay is a plain duration and may be longer)
     cfg.max_unsol_retries = *r.pick(&[None, Some(0usize), Some(1), Some(3)]);
+    cfg.unsol_retry_delay_ms = if cfg.max_unsol_retries.is_some() && r.chance(1, 4) {
+        // hours: only with a finite number of retries (an endless series would be retransmitted all the way through)
+        *r.pick(&[3_600_000u64, 3_600_001, 7_200_000, 86_400_000])
+    } else {
+        *r.pick(&[0u64, 30, 500, 5000])
+    };
     cfg.decode = r.usize_below(108);
     cfg.unsol_tx = *r.pick(&[249usize, 2048]);
     cfg.discard = r.bool();
@@ -147,7 +153,30 @@ async fn scenario(a: &ShardArgs, idx: u64) {
                     0 => t_c,
                     1 => t_c.saturating_sub(1).max(1),
                     2 => 1,
-                    3 => d_r.max(1),
+                    3 => {
+                        if d_r > 10_000 {
+                            // hours go by only while nothing is being retransmitted: after a data series has used up its retries
+                            let failed = match (txs.last(), cfg.max_unsol_retries) {
+                                (Some(l), Some(m)) if !l.null => {
+                                    let n = txs
+                                        .iter()
+                                        .rev()
+                                        .take_while(|x| x.seq == l.seq && !x.null)
+                                        .count();
+                                    n >= m + 1 && now >= l.t + t_c
+                                }
+                                _ => false,
+                            };
+                            if failed {
+                                out::count("long_retry_delay_waited", 1);
+                                d_r
+                            } else {
+                                5000
+                            }
+                        } else {
+                            d_r.max(1)
+                        }
+                    }
                     _ => r.range(1, t_c * 2),
                 };
                 sim.advance(dt).await;
